@@ -59,6 +59,128 @@ Example C16_example :
   map k_key (key_iter 4 10 "*" 0 2 d 0) = ["a"; "b"; "c"].
 Proof. vm_compute. split; reflexivity. Qed.
 
+
+(* ---- iterations that run while the database changes (proofs in ProofScan2.v) ----
+   [set_iter_with now key pat count steps d 0] is the iteration protocol with the operations
+   [steps] of other clients interleaved: before each page fetch the next entry of [steps] is
+   applied ([None] = nothing happens).  [run_dbs] lists every state the database goes through,
+   [page_dbs] the states in which a page is fetched.  The result is (items returned, finished?).
+   "Present for the whole iteration" = a member in every state of [run_dbs]. *)
+From Redka Require Import ImplString ImplList Inv Refine ProofInv ProofInv2 ProofRefineStr ProofNoTrace ProofScan2.
+
+(* the hypothesis ids_ascending is an invariant of EVERY operation of the model, so it holds in every reachable state *)
+Theorem C16_ids_ascending_preserved_ : forall now o d,
+  Inv d -> ids_ascending d = true -> ids_ascending (fst (exec_db now o d)) = true.
+Proof. exact ids_ascending_preserved. Qed.
+
+Theorem C16_ids_ascending_reachable_ : forall h, ids_ascending (fst (run_impl h empty_db)) = true.
+Proof. exact ids_ascending_reachable. Qed.
+
+(* sets: a member that is present throughout is returned exactly once, for every page size, pattern and interleaved run of operations other than a store / move (those re-create rows: see the refutations below) *)
+Theorem C16_set_present_throughout_exactly_once_ : forall now key pat count steps d kid e,
+  Inv d -> ids_ascending d = true ->
+  safe_steps set_safe steps ->
+  glob pat e = true ->
+  Forall (set_member now key kid e) (run_dbs now steps d) ->
+  snd (set_iter_with now key pat count steps d 0) = true ->
+  count_occ string_dec (fst (set_iter_with now key pat count steps d 0)) e = 1%nat.
+Proof. exact C16_set_present_throughout_exactly_once. Qed.
+
+Theorem C16_set_at_most_once_ : forall now key pat count steps d e r,
+  Inv d -> ids_ascending d = true ->
+  (forall D k y, In D (page_dbs now steps d) -> live_key now D key T_SET = Some k ->
+                 In y (rset D) -> e_kid y = k_id k -> e_elem y = e -> e_rid y = r) ->
+  (count_occ string_dec (fst (set_iter_with now key pat count steps d 0)) e <= 1)%nat.
+Proof. exact C16_set_at_most_once. Qed.
+
+(* hashes: every interleaved operation is allowed *)
+Theorem C16_hash_present_throughout_exactly_once_ : forall now key pat count steps d kid f,
+  Inv d -> ids_ascending d = true ->
+  glob pat f = true ->
+  Forall (hash_member now key kid f) (run_dbs now steps d) ->
+  snd (hash_iter_with now key pat count steps d 0) = true ->
+  List.length (filter (fun fv => String.eqb (fst fv) f)
+                      (fst (hash_iter_with now key pat count steps d 0))) = 1%nat.
+Proof. exact C16_hash_present_throughout_exactly_once. Qed.
+
+Theorem C16_hash_at_most_once_ : forall now key pat count steps d f r,
+  Inv d -> ids_ascending d = true ->
+  (forall D k y, In D (page_dbs now steps d) -> live_key now D key T_HASH = Some k ->
+                 In y (rhash D) -> h_kid y = k_id k -> h_field y = f -> h_rid y = r) ->
+  (List.length (filter (fun fv => String.eqb (fst fv) f)
+                       (fst (hash_iter_with now key pat count steps d 0))) <= 1)%nat.
+Proof. exact C16_hash_at_most_once. Qed.
+
+(* sorted sets: every interleaved operation but a store *)
+Theorem C16_zset_present_throughout_exactly_once_ : forall now key pat count steps d kid e,
+  Inv d -> ids_ascending d = true ->
+  safe_steps zset_safe steps ->
+  glob pat e = true ->
+  Forall (zset_member now key kid e) (run_dbs now steps d) ->
+  snd (zset_iter_with now key pat count steps d 0) = true ->
+  List.length (filter (fun r => String.eqb (z_elem r) e)
+                      (fst (zset_iter_with now key pat count steps d 0))) = 1%nat.
+Proof. exact C16_zset_present_throughout_exactly_once. Qed.
+
+Theorem C16_zset_at_most_once_ : forall now key pat count steps d e r,
+  Inv d -> ids_ascending d = true ->
+  (forall D k y, In D (page_dbs now steps d) -> live_key now D key T_ZSET = Some k ->
+                 In y (rzset D) -> z_kid y = k_id k -> z_elem y = e -> z_rid y = r) ->
+  (List.length (filter (fun r => String.eqb (z_elem r) e)
+                       (fst (zset_iter_with now key pat count steps d 0))) <= 1)%nat.
+Proof. exact C16_zset_at_most_once. Qed.
+
+(* the keyspace: every interleaved operation is allowed; the key only has to be there, under the same id, whenever a page is fetched *)
+Theorem C16_key_present_throughout_exactly_once_ : forall now pat ktype count steps d name kid,
+  Inv d -> ids_ascending d = true ->
+  Forall (key_present now pat ktype name kid) (page_dbs now steps d) ->
+  snd (key_iter_with now pat ktype count steps d 0) = true ->
+  List.length (filter (fun k => String.eqb (k_key k) name)
+                      (fst (key_iter_with now pat ktype count steps d 0))) = 1%nat.
+Proof. exact C16_key_present_throughout_exactly_once. Qed.
+
+Theorem C16_key_at_most_once_ : forall now pat ktype count steps d kid,
+  Inv d -> ids_ascending d = true ->
+  (List.length (filter (fun k => Z.eqb (k_id k) kid)
+                       (fst (key_iter_with now pat ktype count steps d 0))) <= 1)%nat.
+Proof. exact C16_key_at_most_once. Qed.
+
+(* The full statement - for EVERY interleaved run - is false of the faithful model, and of the
+   code (recorded findings kf_iteration_across_store_into_iterated_key and
+   kf_iteration_across_move_to_same_key; the harness replays both on the implementation):
+   a store INTO the iterated key re-creates its rows; "a" is a member in every state of the run
+   and yet "b" is returned twice and "a" never. *)
+Theorem C16_refuted_store_during_iteration :
+  set_iter_with 0 "k" "*" 1 [None; Some (EStore AUnion "k" ["k"]); None; None] cex_set_db 0
+  = (["b"; "b"], true)
+  /\ Forall (set_member 0 "k" 1 "a") (run_dbs 0 [None; Some (EStore AUnion "k" ["k"]); None; None] cex_set_db).
+Proof. exact cex_store_during_iteration. Qed.
+
+Theorem C16_refuted_zstore_during_iteration :
+  map z_elem (fst (zset_iter_with 0 "z" "*" 1 [None; Some (ZStore false GSum "z" ["z"]); None; None] cex_zset_db 0))
+  = ["b"; "b"]
+  /\ snd (zset_iter_with 0 "z" "*" 1 [None; Some (ZStore false GSum "z" ["z"]); None; None] cex_zset_db 0) = true.
+Proof. exact cex_zstore_during_iteration. Qed.
+
+Theorem C16_refuted_move_same_key_during_iteration :
+  set_iter_with 0 "k" "*" 1 [None; Some (EMove "k" "k" (AStr "b")); None; None; None] cex_set_db 0
+  = (["b"; "a"; "b"], true).
+Proof. exact cex_move_same_key_during_iteration. Qed.
+
+Print Assumptions C16_ids_ascending_preserved_.
+Print Assumptions C16_ids_ascending_reachable_.
+Print Assumptions C16_set_present_throughout_exactly_once_.
+Print Assumptions C16_set_at_most_once_.
+Print Assumptions C16_hash_present_throughout_exactly_once_.
+Print Assumptions C16_hash_at_most_once_.
+Print Assumptions C16_zset_present_throughout_exactly_once_.
+Print Assumptions C16_zset_at_most_once_.
+Print Assumptions C16_key_present_throughout_exactly_once_.
+Print Assumptions C16_key_at_most_once_.
+Print Assumptions C16_refuted_store_during_iteration.
+Print Assumptions C16_refuted_zstore_during_iteration.
+Print Assumptions C16_refuted_move_same_key_during_iteration.
+
 Print Assumptions C16_key_iteration.
 Print Assumptions C16_set_iteration.
 Print Assumptions C16_hash_iteration.
